@@ -134,21 +134,19 @@ func VerifC15_Accounting() {
 
 func VerifC15_ConcurrencyBound() {
 	rt.NoTimers()
-	rt.SchedYieldOnly(true)
+	rt.SchedYieldOnly(false) // every blocking point is a scheduling choice
 	const T = 2
 	m := c15Setup(T)
 	k := 3
 	gauge := 0
-	maxSeen := 0
 	var wg sync.WaitGroup
+	gate := make(chan struct{})
+	entered := make(chan struct{}, k)
 	fn := func(ctx context.Context) error {
 		gauge++
-		if gauge > maxSeen {
-			maxSeen = gauge
-		}
 		rt.Assert(gauge <= T, "bound/at-most-threshold-running")
-		rt.Yield()
-		rt.Yield()
+		entered <- struct{}{}
+		<-gate // stay inside the microtask until the harness releases it
 		gauge--
 		return nil
 	}
@@ -164,6 +162,15 @@ func VerifC15_ConcurrencyBound() {
 			}
 		}()
 	}
+	// wait until T microtasks sit inside their function, give a wrongly
+	// admitted one the chance to enter as well, then release all
+	for i := 0; i < T; i++ {
+		<-entered
+	}
+	rt.Yield()
+	rt.Yield()
+	rt.Assert(gauge <= T, "bound/at-most-threshold-admitted")
+	close(gate)
 	wg.Wait()
 	rt.Assert(gauge == 0, "bound/all-finished")
 	rt.Assert(atomic.LoadInt32(microTasks) == 0, "bound/global-counter-zero-after-all-finished")
@@ -174,4 +181,3 @@ func VerifC15_ConcurrencyBound() {
 	rt.Assert(ran, "bound/later-microtask-admitted")
 	rt.Reach("bound-end")
 }
-
